@@ -19,7 +19,7 @@ PRIMES = [46337, 46327]
 
 
 def mv_consts(n, outl, move, seed, skip=False, deg=False, whole=True, prime=46337):
-    return {"N": n, "OutlierOn": tlc.tla_bool(outl), "Move": tlc.tla_str(move), "SkipLoneOutlier": tlc.tla_bool(skip),
+    return {"N": n, "OutlierOn": tlc.tla_bool(outl), "Move": tlc.tla_str(move), "DumpRows": "FALSE", "SkipLoneOutlier": tlc.tla_bool(skip),
             "RegraftDegreeFactor": tlc.tla_bool(deg), "AllOutlierWhole": tlc.tla_bool(whole), "Seed": seed, "P": prime}
 
 
@@ -55,6 +55,76 @@ def model_runs(ck, thorough, seed):
             tlc.require_ok(r, label)
 
 
+def mechanism_rows(ck, seed, table):
+    """Mechanism-level conformance (diagnostic): the probability vectors the real data-point and prune-regraft samplers
+    hand to their multinomial draw must be the single-step rows of Moves.tla (exact rationals on TLC's tables)."""
+    import itertools
+    import math
+    from ..enumrng import EnumRNG, enumerate_paths
+    from ..tabledist import TableDist
+
+    n = 3
+    c = mv_consts(n, True, "dp", seed)
+    c["DumpRows"] = "TRUE"
+    r = tlc.run_tlc("c04_rows", "Moves", tlc.cfg_text(constants=c, invariants=["Stationary", "EmitRows"]), workers=1, timeout=1500)
+    tlc.require_ok(r, "Moves rows dump")
+    ck.add_tlc("Moves.tla single-step rows of the data-point and prune-regraft moves as exact rationals (N=3, outliers on)", r)
+    cfg = dict(dist="table", alpha=1.0, np=2, thr=0.5, kernel="semi", n=n, wiring="run", outl=True)
+    data = c01.make_data(cfg)
+    compared = drift = 0
+    for rec in r.json_prints:
+        s0 = absstate.canon(rec["s"])
+        dp_rows = {x["d"]: sorted(e["p"][0] / e["p"][1] for e in x["row"]) for x in rec["dp"]}
+        prg_rows = {frozenset(x["v"]): sorted(e["p"][0] / e["p"][1] for e in x["row"]) for x in rec["prg"]}
+        for which in ("dp", "prg"):
+            td = TableDist(table)
+            rng = EnumRNG()
+            sampler = c01.make_sampler(cfg, td, rng, which)
+            holder = {}
+
+            def go():
+                t = absstate.build(s0, data)
+                holder["tree"] = t
+                holder["labels"] = list(t.labels.keys())
+                holder["nodes"] = list(t.nodes)
+                holder["clade"] = absstate.project(t, full=False)[1]["clade"]
+                holder["movable"] = {d: (lab == -1 or t.get_data_len(lab) > 1) for d, lab in t.labels.items()}
+                return sampler.sample_tree(t)
+
+            seen = set()
+            for _, p, script in enumerate_paths(go, rng):
+                tr = rng.trace
+                if which == "dp":
+                    if not tr or tr[0][0] != "shuffle":
+                        continue
+                    perm = list(itertools.permutations(range(len(holder["labels"]))))[tr[0][1]]
+                    order = [holder["labels"][j] for j in perm]
+                    first = next((d for d in order if holder["movable"][d]), None)
+                    mult = next((t_ for t_ in tr[1:] if t_[0] == "mult1"), None)
+                    if first is None or mult is None or (first,) in seen:
+                        continue
+                    seen.add((first,))
+                    got, want = sorted(x for x in mult[2] if x > 0), dp_rows.get(first, [])
+                else:
+                    if len(tr) < 2 or tr[0][0] != "choice" or tr[1][0] != "mult1":
+                        continue
+                    node = holder["nodes"][tr[0][1]]
+                    v = holder["clade"][node]
+                    if v in seen:
+                        continue
+                    seen.add(v)
+                    got, want = sorted(x for x in tr[1][2] if x > 0), prg_rows.get(v, [])
+                compared += 1
+                if len(got) != len(want) or any(abs(a - b) > 1e-12 for a, b in zip(got, want)):
+                    drift += 1
+                    if drift <= 3:
+                        ck.model_drift("%s sampler from %s: multinomial probabilities %s differ from the row of Moves.tla %s" % (
+                            which, absstate.key_str(s0), [round(x, 6) for x in got], [round(x, 6) for x in want]))
+    ck.extra["mechanism_rows_compared"] = compared
+    ck.extra["mechanism_rows_differing"] = drift
+    ck.traces_validated += compared - drift
+
+
 def sigfn_for(which):
     def f(cfg):
         if which in ("dp", "prg"):
@@ -84,6 +154,7 @@ def run(corrupt=None):
         cfgs.append(dict(base, n=3, wiring="run", outl=True, dist="real", alpha=0.3))
         cfgs.append(dict(base, n=3, wiring="lib", outl=False, dist="real", alpha=2.5))
         c01.run_configs(ck, cfgs, table, which=which, prop="C04", corrupt=corrupt, sigfn=sigfn_for(which))
+    mechanism_rows(ck, seed, table)
     # sweep composition on one tree object (data-point scan, prune-regraft, relabel, prune-regraft), real density
     cfgs = [dict(base, n=3, wiring="run", outl=False, dist="real", alpha=0.6)]
     if thorough:
